@@ -57,7 +57,7 @@ theorem inv_start (m0 : AL Nat) (ops : List LOp) : Inv m0 (start m0 ops) := by
   · simp only [start]
     induction ops with
     | nil => rfl
-    | cons x xs ih => simp [List.countP_cons, inCrit]
+    | cons x xs ih => simp [inCrit]
   all_goals
     intro t ht
     simp only [start, List.mem_map] at ht
